@@ -3,7 +3,7 @@
 dict = spatial dict at the derived Cvs / (1 - Xi) for every regime, Xi reported, never 'FB' / 'fixed bed'."""
 import math
 import random
-from scommon import Search, E_args, sample_E, seed
+from scommon import Search, E_args, sample_E, seed, is_slip_pole
 from DHLLDV import DHLLDV_framework as fw
 from DHLLDV.DHLLDV_constants import Cvb
 
@@ -29,7 +29,10 @@ for i in range(S.budget):
         name = fw.Cvt_regime(*a)
         inner = fw.Cvs_Erhg(*a[:7], Cvs, get_dict=True)
     except ZeroDivisionError as e:
-        S.violation('C05:slip-pole', 'ZeroDivisionError: exact zero of the denominator of Eqn 8.12-3 (Xi_fb)', input=a)
+        if is_slip_pole(e):
+            S.violation('C05:slip-pole', 'ZeroDivisionError: exact zero of the denominator of Eqn 8.12-3 (Xi_fb)', input=a)
+        else:
+            S.violation('C05:raise', f'ZeroDivisionError elsewhere: {e}', input=a)
         continue
     except Exception as e:
         S.count(None, 'exception:' + type(e).__name__)
@@ -56,4 +59,15 @@ for i in range(S.budget):
     S.count(a, 'inner:' + inner['regime'])
     if i == 0:
         S.sample(where)
+# the recorded exact zero of the Eqn 8.12-3 denominator (known finding, identified by its call site)
+pole = (7.341116741723085, 0.6220277465574028, 0.0001296626597903499, 4.5e-05, 1.1944835015943532e-06, 1.0166564188449936,
+        2.2852007058507358, 0.1811444315872467)
+try:
+    fw.slip_ratio(*pole)
+except ZeroDivisionError as e:
+    if is_slip_pole(e):
+        S.violation('C05:slip-pole', 'ZeroDivisionError: exact zero of the denominator of Eqn 8.12-3 (Xi_fb)', input=pole)
+    else:
+        S.violation('C05:raise', f'ZeroDivisionError elsewhere: {e}', input=pole)
+S.count(pole, 'recorded-pole')
 S.finish()
